@@ -35,9 +35,10 @@ man = {
     "notes": "All checks: bin/check <ID> <tier>. Seeds derive from VERIF_SEED (default 1). Tiers are bounded by case count, not wall clock. "
              "Known findings: KNOWN_FINDINGS.txt. Seeded breaking changes: seeded/. Mutants: mutants/.",
 }
+claimed = set(open(os.path.join(V, "lib", "claimed.txt")).read().split())
 for p in props:
     pid = p["id"]
-    if pid in META:
+    if pid in META and pid in claimed:
         v = META[pid]
         man["checks"].append({
             "property_id": pid,
